@@ -11,6 +11,7 @@ import (
 	"sort"
 	"strconv"
 	"strings"
+	"unicode/utf8"
 
 	"golang.org/x/tools/go/ssa"
 )
@@ -199,6 +200,43 @@ func init() {
 		"strings.ToUpper": func(fr *frame, args []value) value { return strings.ToUpper(concStr(args[0], "strings.ToUpper")) },
 		"strings.ToLower": func(fr *frame, args []value) value { return strings.ToLower(concStr(args[0], "strings.ToLower")) },
 		"unique.Make[string]": func(fr *frame, args []value) value { return args[0] },
+		"strings.TrimRight": func(fr *frame, args []value) value {
+			return fr.i.ps.trimElems(args[0], concStr(args[1], "TrimRight cutset"), false, true)
+		},
+		"strings.TrimLeft": func(fr *frame, args []value) value {
+			return fr.i.ps.trimElems(args[0], concStr(args[1], "TrimLeft cutset"), true, false)
+		},
+		"strings.Trim": func(fr *frame, args []value) value {
+			return fr.i.ps.trimElems(args[0], concStr(args[1], "Trim cutset"), true, true)
+		},
+		"strings.TrimSpace": func(fr *frame, args []value) value {
+			if s, ok := args[0].(string); ok {
+				return strings.TrimSpace(s)
+			}
+			return fr.i.ps.trimElems(args[0], "\t\n\v\f\r \x85\xa0", true, true)
+		},
+		"unicode/utf8.FullRune": func(fr *frame, args []value) value {
+			e := args[0].([]value)
+			if len(e) == 0 {
+				return false
+			}
+			switch b := e[0].(type) {
+			case ffElem:
+				return true
+			case sym:
+				fr.i.ps.requireASCII(b, "utf8.FullRune")
+				return true
+			}
+			var buf []byte
+			for _, x := range e {
+				c, ok := x.(uint8)
+				if !ok || len(buf) == 4 {
+					break
+				}
+				buf = append(buf, c)
+			}
+			return utf8.FullRune(buf)
+		},
 		// sync
 		"(*sync.WaitGroup).Add":  extWGAdd,
 		"(*sync.WaitGroup).Done": func(fr *frame, args []value) value { return extWGAdd(fr, []value{args[0], -1}) },
@@ -435,7 +473,71 @@ func (i *interpreter) sprint(fr *frame, args []value, ln bool) string {
 }
 
 func extSprintf(fr *frame, args []value) value {
-	return fr.i.sprintf(fr, args[0], args[1].([]value), true)
+	return fr.i.sprintfSym(fr, args[0], args[1].([]value))
+}
+
+// sprintfSym: Sprintf in which %s / %v arguments may be strings with symbolic
+// content; those are spliced in element-wise, everything else is formatted by
+// the real fmt on concrete values.
+func (i *interpreter) sprintfSym(fr *frame, format value, args []value) value {
+	hasSym := false
+	for _, a := range args {
+		v := a
+		if it, ok := v.(iface); ok {
+			v = it.v
+		}
+		if _, ok := v.(*symstr); ok {
+			hasSym = true
+		}
+	}
+	if !hasSym {
+		return i.sprintf(fr, format, args, true)
+	}
+	f := concStr(format, "fmt format")
+	var out []value
+	lit := func(s string) {
+		for k := 0; k < len(s); k++ {
+			out = append(out, s[k])
+		}
+	}
+	ai := 0
+	for k := 0; k < len(f); {
+		if f[k] != '%' {
+			out = append(out, f[k])
+			k++
+			continue
+		}
+		if k+1 < len(f) && f[k+1] == '%' {
+			out = append(out, uint8('%'))
+			k += 2
+			continue
+		}
+		// verb: %[flags][width][.prec]verb
+		j := k + 1
+		for j < len(f) && strings.IndexByte("+-# 0123456789.", f[j]) >= 0 {
+			j++
+		}
+		if j >= len(f) || ai >= len(args) {
+			panic(pathEnd{StUnsupported, "malformed format with symbolic argument: " + f})
+		}
+		verb := f[k : j+1]
+		a := args[ai]
+		ai++
+		v := a
+		if it, ok := v.(iface); ok {
+			v = it.v
+		}
+		if ss, ok := v.(*symstr); ok {
+			if verb != "%s" && verb != "%v" {
+				panic(pathEnd{StUnsupported, "symbolic string formatted with " + verb})
+			}
+			out = append(out, ss.e...)
+		} else {
+			lit(fmt.Sprintf(verb, i.native(fr, a, true)))
+		}
+		k = j + 1
+	}
+	return normStr(out)
 }
 func extSprint(fr *frame, args []value) value   { return fr.i.sprint(fr, args[0].([]value), false) }
 func extSprintln(fr *frame, args []value) value { return fr.i.sprint(fr, args[0].([]value), true) }
@@ -844,3 +946,55 @@ func atomicCAS(fr *frame, args []value) value {
 }
 
 var _ = sort.Strings
+
+
+// elemInSet decides (forking on symbolic bytes) whether a string element is
+// one of the ASCII characters of set.
+func (ps *pathState) elemInSet(e value, set string) bool {
+	switch b := e.(type) {
+	case uint8:
+		return strings.IndexByte(set, b) >= 0
+	case ffElem:
+		for i := 0; i < len(set); i++ {
+			if strings.IndexByte(ffClassChars, set[i]) >= 0 {
+				panic(pathEnd{StUnsupported, "float-text pseudo byte tested against a set containing float characters"})
+			}
+		}
+		return false
+	case sym:
+		var cs []*Term
+		for i := 0; i < len(set); i++ {
+			if set[i] < 0x80 {
+				cs = append(cs, ps.ts.Eq(b.t, ps.ts.BV(uint64(set[i]), 8)))
+			}
+		}
+		return ps.decide(ps.ts.Or(cs...))
+	}
+	panic(pathEnd{StEngineError, fmt.Sprintf("elemInSet: %T", e)})
+}
+
+func (ps *pathState) trimElems(v value, set string, left, right bool) value {
+	if s, ok := v.(string); ok {
+		switch {
+		case left && right:
+			return strings.Trim(s, set)
+		case left:
+			return strings.TrimLeft(s, set)
+		default:
+			return strings.TrimRight(s, set)
+		}
+	}
+	e := strElems(v)
+	lo, hi := 0, len(e)
+	if left {
+		for lo < hi && ps.elemInSet(e[lo], set) {
+			lo++
+		}
+	}
+	if right {
+		for hi > lo && ps.elemInSet(e[hi-1], set) {
+			hi--
+		}
+	}
+	return normStr(e[lo:hi])
+}
